@@ -42,7 +42,8 @@ class Mpo(MatrixProduct):
         assert space in ["GS", "EX"]
 
         mpo = cls()
-        if np.iscomplex(x):
+        if np.iscomplexobj(x):
+            # also a real value carried by a complex number (``-1j * evolve_dt`` for an imaginary time step)
             mpo.to_complex(inplace=True)
         mpo.model = model
 
